@@ -2,10 +2,16 @@
  * Scope of this harness (level 'bounded'): the row group is already open, 1..2 projected columns out of
  * 1..3 file columns, flat schema, every column INT32 (CQV_TYPE); the number of rows is unbounded.
  * carquet_column_read_batch is replaced by its contract (contracts/column_reader.ovl); the getters of
- * file_reader.c are the real ones; the arena is an assumed contract (stubs/colreader_stubs.c). */
+ * file_reader.c are restated below; the arena is an assumed contract (stubs/colreader_stubs.c). */
 #include "colreader.c"
 #define CQV_BIT(bm, k) (((bm)[(k) >> 3] >> ((k) & 7)) & 1)
-#include "src/reader/file_reader.c"
+/* The four getters of file_reader.c used by carquet_batch_reader_next, restated (file_reader.c as a
+ * whole cannot be in this translation unit: its recursive schema traversal breaks goto-instrument's
+ * loop-contract pass).  Each is the one-line body of the real function (file_reader.c:458-471, 566-574). */
+const carquet_schema_t *carquet_reader_schema(const carquet_reader_t *reader) { return reader->schema; }
+int32_t carquet_reader_num_row_groups(const carquet_reader_t *reader) { return reader->metadata.num_row_groups; }
+bool carquet_column_has_next(const carquet_column_reader_t *reader) { return reader->values_remaining > 0; }
+int64_t carquet_column_remaining(const carquet_column_reader_t *reader) { return reader->values_remaining; }
 #include "src/reader/batch_reader.c"
 
 #define CQV_NL_MAX 3
@@ -70,6 +76,7 @@ void h_batch_next(void) {
 
   cqv_j = nondet_size_t();
   cqv_rb_short = 0;
+  cqv_np_witness = 0;
   carquet_row_batch_t *batch = NULL;
   carquet_status_t st = carquet_batch_reader_next(br, &batch);
   CQV_CANARY("batch_next returns");
